@@ -319,8 +319,30 @@ func (p *Program) ruleM2(c *Check) {
 		}
 		ret, ok := arm.Body[0].(*ast.ReturnStmt)
 		var cmp *ast.BinaryExpr
+		otherObj := info.Implicits[arm]
 		if ok && len(ret.Results) == 1 {
 			cmp, _ = ast.Unparen(ret.Results[0]).(*ast.BinaryExpr)
+			// the comparison may live in a helper method: return g.helper(other)
+			for depth := 0; cmp == nil && depth < 2; depth++ {
+				call, isCall := ast.Unparen(ret.Results[0]).(*ast.CallExpr)
+				if !isCall || len(call.Args) != 1 {
+					break
+				}
+				callee, _ := typeutil.Callee(info, call).(*types.Func)
+				hfd, hpkg := p.Decl(callee), p.DeclPkg(callee)
+				if hfd == nil || hfd.Recv == nil || len(hfd.Body.List) != 1 || len(hfd.Type.Params.List) != 1 || len(hfd.Type.Params.List[0].Names) != 1 {
+					break
+				}
+				hret, isRet := hfd.Body.List[0].(*ast.ReturnStmt)
+				if !isRet || len(hret.Results) != 1 {
+					break
+				}
+				info = hpkg.TypesInfo
+				recvObj = info.Defs[hfd.Recv.List[0].Names[0]]
+				otherObj = info.Defs[hfd.Type.Params.List[0].Names[0]]
+				ret = hret
+				cmp, _ = ast.Unparen(hret.Results[0]).(*ast.BinaryExpr)
+			}
 		}
 		if cmp == nil || !(cmp.Op == token.LSS || cmp.Op == token.LEQ || cmp.Op == token.GTR || cmp.Op == token.GEQ) {
 			c.Undecided("E2.M2", construct, p.Pos(arm.Pos()), "the *Circle arm is not a single return of an order comparison")
@@ -331,7 +353,6 @@ func (p *Program) ruleM2(c *Check) {
 			l, r, op = r, l, f
 		}
 		var atoms []signedAtom
-		otherObj := info.Implicits[arm]
 		p.polarityAtoms(info, l, -1, recvObj, otherObj, &atoms)
 		p.polarityAtoms(info, r, +1, recvObj, otherObj, &atoms)
 		got := map[string]int{}
@@ -390,7 +411,11 @@ func (p *Program) ruleM2(c *Check) {
 		c.Bad("E2.M2", construct, p.declPos(cp), "containsPoint must be the single great-circle comparison; an early return or extra condition makes membership depend on something other than the distance to the centre (C13)")
 		return
 	}
-	t := sh.final()
+	t := p.inlineIn(sh.final(), 3, p.Geojson.Types)
+	// canonical comparison: (>= a b) is (<= b a)
+	if t.Kind == "op" && t.Name == ">=" && len(t.Args) == 2 {
+		t = tOp("<=", t.Args[1], t.Args[0])
+	}
 	center := p.Field("geojson", "Circle", "center")
 	hav := p.Field("geojson", "Circle", "haversine")
 	met := p.Field("geojson", "Circle", "meters")
@@ -473,17 +498,36 @@ var ringKernels = []string{"ringContainsPoint", "ringIntersectsPoint", "ringCont
 
 // ringProvenance classifies an expression used as a ring argument.
 func ringProvenance(info *types.Info, e ast.Expr, rangeOf map[types.Object]ast.Expr, geomRect *types.Named) string {
+	return ringProvenanceP(info, e, rangeOf, geomRect, nil)
+}
+
+// ringProvenanceP: paramProv (optional) tells what the caller(s) pass for a parameter.
+func ringProvenanceP(info *types.Info, e ast.Expr, rangeOf map[types.Object]ast.Expr, geomRect *types.Named, paramProv func(types.Object) string) string {
 	e = ast.Unparen(e)
 	switch x := e.(type) {
 	case *ast.SelectorExpr:
 		if x.Sel.Name == "Exterior" {
 			return "exterior"
 		}
+		if x.Sel.Name == "Holes" {
+			return "holes"
+		}
 	case *ast.Ident:
 		if o := info.Uses[x]; o != nil {
 			if src, ok := rangeOf[o]; ok {
 				if sel, ok := ast.Unparen(src).(*ast.SelectorExpr); ok && sel.Sel.Name == "Holes" {
 					return "hole"
+				}
+				// ranging over a parameter that the callers fill with a polygon's holes
+				if id, ok := ast.Unparen(src).(*ast.Ident); ok && paramProv != nil {
+					if po := info.Uses[id]; po != nil && paramProv(po) == "holes" {
+						return "hole"
+					}
+				}
+			}
+			if paramProv != nil {
+				if pv := paramProv(o); pv == "exterior" || pv == "hole" || pv == "rect" {
+					return pv
 				}
 			}
 			if nt, ok := types.Unalias(o.Type()).(*types.Named); ok && nt == geomRect {
@@ -574,8 +618,9 @@ func (p *Program) ruleB1(c *Check, onlyKernels map[string]bool) {
 				return true
 			}
 			got := tv.Value.ExactString() == "true"
-			p0 := ringProvenance(info, call.Args[0], rangeOf, geomRect)
-			p1 := ringProvenance(info, call.Args[1], rangeOf, geomRect)
+			pp := p.paramProvenance(fnode, geomRect)
+			p0 := ringProvenanceP(info, call.Args[0], rangeOf, geomRect, pp)
+			p1 := ringProvenanceP(info, call.Args[1], rangeOf, geomRect, pp)
 			var want bool
 			var why string
 			switch {
@@ -852,4 +897,71 @@ func (p *Program) ruleM1(c *Check, fnNames map[string]bool) {
 		})
 	}
 	c.Count("mirror_instances", n)
+}
+
+// paramProvenance: what the callers of a helper pass for its ring-typed (or
+// []Ring-typed) parameters: "exterior", "hole", "holes", "rect" — when all call
+// sites agree — else "".
+func (p *Program) paramProvenance(fnode funcNode, geomRect *types.Named) func(types.Object) string {
+	info := fnode.pkg.TypesInfo
+	params := map[types.Object]int{}
+	i := 0
+	for _, f := range fnode.fd.Type.Params.List {
+		for _, n := range f.Names {
+			params[info.Defs[n]] = i
+			i++
+		}
+	}
+	cache := map[types.Object]string{}
+	return func(o types.Object) string {
+		idx, ok := params[o]
+		if !ok {
+			return ""
+		}
+		if v, ok := cache[o]; ok {
+			return v
+		}
+		cache[o] = ""
+		res := ""
+		first := true
+		for _, other := range p.repoFuncNodes() {
+			if other.pkg != fnode.pkg {
+				continue
+			}
+			oinfo := other.pkg.TypesInfo
+			rangeOf := map[types.Object]ast.Expr{}
+			ast.Inspect(other.fd.Body, func(n ast.Node) bool {
+				if rs, ok := n.(*ast.RangeStmt); ok {
+					if id, ok := rs.Value.(*ast.Ident); ok {
+						if ob := oinfo.Defs[id]; ob != nil {
+							rangeOf[ob] = rs.X
+						}
+					}
+				}
+				return true
+			})
+			ast.Inspect(other.fd.Body, func(n ast.Node) bool {
+				call, ok := n.(*ast.CallExpr)
+				if !ok {
+					return true
+				}
+				callee, _ := typeutil.Callee(oinfo, call).(*types.Func)
+				if callee != fnode.fn || idx >= len(call.Args) {
+					return true
+				}
+				pv := ringProvenance(oinfo, call.Args[idx], rangeOf, geomRect)
+				if first {
+					res, first = pv, false
+				} else if res != pv {
+					res = "unknown"
+				}
+				return true
+			})
+		}
+		if res == "unknown" {
+			res = ""
+		}
+		cache[o] = res
+		return res
+	}
 }
